@@ -29,6 +29,10 @@ type Bias struct {
 	// Simple: one appender at a time, no staleness markers, only open/add/commit/rollback,
 	// db.Compact, head flush and m-mapping (used by the crash check, where restarts are injected).
 	Simple bool
+	// Prelude (with Simple): that many rounds of "append one sample per series 1600 ms ahead,
+	// commit, db.Compact" before the drawn operations, so that the workload starts with several
+	// head compactions behind it (the third one writes the first WAL checkpoint).
+	Prelude int
 }
 
 var baseTimes = []int64{0, -5000, 1_000_000, 1 << 40, -(1 << 40), 999_997, -1_000_003}
@@ -256,6 +260,9 @@ func GenHistory(t *rapid.T, b Bias) History {
 	}
 	if b.Simple {
 		table = []wop{{"open", 4}, {"add", 40}, {"commit", 10}, {"rollback", 1}, {"compact", 4}, {"flush", 2}, {"mmap", 2}}
+		if !b.NoDeletes {
+			table = append(table, wop{"delete", 3 + b.Deletes}, wop{"cleantomb", 1}, wop{"compactooo", 1})
+		}
 	}
 	if b.Churn > 0 && !b.HeadOnly {
 		table = append(table, wop{"evictstale", b.Churn}, wop{"evictsel", b.Churn}, wop{"crashreopen", b.Churn})
@@ -266,6 +273,27 @@ func GenHistory(t *rapid.T, b Bias) History {
 			ks = append(ks, w.k)
 		}
 	}
+	for i := 0; i < b.Prelude && b.Simple; i++ {
+		a := g.m.NewAppender(false)
+		g.apps[0] = a
+		g.ops = append(g.ops, Op{K: "open", A: 0})
+		ts := g.now + 1600
+		for s := 0; s < cfg.NSeries && s < 2; s++ {
+			v := tm.Val{Kind: tm.KFloat, F: math.Float64bits(float64(100 + i))}
+			if !g.established[s] {
+				g.creator[s] = 0
+			}
+			g.m.Append(a, s, ts, v, false)
+			g.lastV[s] = v
+			g.ops = append(g.ops, Op{K: "add", A: 0, S: s, T: ts, V: v})
+		}
+		g.now = ts
+		g.emitClose("commit", 0)
+		g.established, g.creator = map[int]bool{}, map[int]int{}
+		g.simulateCompact()
+		g.ops = append(g.ops, Op{K: "compact"})
+	}
+	n += len(g.ops)
 	for len(g.ops) < n {
 		k := rapid.SampledFrom(ks).Draw(t, "op")
 		switch k {
